@@ -64,6 +64,8 @@ func (m MConfigure) Configure(_ context.Context, cfg, rt, ver string) (api.Event
 	m.R.mu.Lock()
 	m.R.Calls = append(m.R.Calls, rec.Event{"ev": "handler", "handler": "Configure", "pod": cfg, "ctr": rt + "/" + ver, "podname": "", "ctrname": ""})
 	m.R.mu.Unlock()
+	m.R.mu.Lock()
+	defer m.R.mu.Unlock()
 	if m.R.CfgErr {
 		return 0, errors.New("verif: configure error")
 	}
@@ -344,6 +346,57 @@ func dispOne(scn int, sc DispScenario, factories map[string]Factory, w *rec.Writ
 		}
 	}
 	st.Stop()
+	// a second session of the same stub, asking for the default subscription: what it is subscribed to depends
+	// on the handlers it implements and on this session's answer only, not on what an earlier session asked for
+	if cerr == nil && serr == nil && sc.HasCfg {
+		rmu.Lock()
+		rt = nil
+		rmu.Unlock()
+		r.mu.Lock()
+		r.CfgMask = 0
+		r.mu.Unlock()
+		go func() { startC <- st.Start(context.Background()) }()
+		var rt2 *rawpeer.Runtime
+		for t0 := time.Now(); time.Since(t0) < 2*time.Second; time.Sleep(50 * time.Microsecond) {
+			rmu.Lock()
+			rt2 = rt
+			rmu.Unlock()
+			if rt2 != nil {
+				break
+			}
+		}
+		if rt2 == nil {
+			add(rec.Event{"ev": "restarted", "events": []string{}, "err": "the stub did not dial again"})
+		} else {
+			defer rt2.Close()
+			e2 := ""
+			got2 := 0
+			if err := rt2.WaitRegistered(2 * time.Second); err != nil {
+				e2 = "registration: " + err.Error()
+			} else {
+				ctx2, cancel2 := context.WithTimeout(context.Background(), 3*time.Second)
+				rpl2, err2 := rt2.Plugin.Configure(ctx2, &api.ConfigureRequest{Config: "the-config", RuntimeName: "rt", RuntimeVersion: "v9",
+					RegistrationTimeout: 2000, RequestTimeout: 2000})
+				cancel2()
+				if rpl2 != nil {
+					got2 = int(rpl2.Events)
+				}
+				e2 = errStr(err2)
+				select {
+				case e := <-startC:
+					if e != nil && e2 == "" {
+						e2 = "start: " + e.Error()
+					}
+				case <-time.After(3 * time.Second):
+					if e2 == "" {
+						e2 = "start did not return"
+					}
+				}
+			}
+			add(rec.Event{"ev": "restarted", "events": maskList(got2), "err": e2})
+			st.Stop()
+		}
+	}
 	add(rec.Event{"ev": "End"})
 	return w.WriteScenario(evs)
 }
